@@ -292,5 +292,5 @@ SUBCHECKS = [
              min_per_shard=1),
     SubCheck("all_indices", run_case, strategy=lambda: st_case(), quick=8, thorough=400, min_per_shard=1),
     SubCheck("multiprocess_spread", run_case_spread, strategy=lambda: st_case(threaded=True, multiprocess=True),
-             quick=32, thorough=1600, min_per_shard=1, required_classes=("forked_saver",)),
+             quick=16, thorough=1600, min_per_shard=1, required_classes=("forked_saver",)),
 ]
